@@ -593,7 +593,7 @@ func main() {
 	run.CheckFn = "RouterTotal.check"
 	run.DiagFn = "RouterTotal.diag"
 	run.CaseType = "RouterTotal.case"
-	run.ShardSize = 150
+	run.ShardSize = 60
 	run.Rule = "every input goes computeProcID -> processPkt -> (slow-path disposition) slow path -> (internal link, not " +
 		"SCION-shaped) the link's STUN handling, all under recover; streams: valid = rtgen packets of every position kind " +
 		"re-dressed (SCMP of every type, extension headers, sizes up to the buffer, long paths); field-mutated = rtgen " +
@@ -607,7 +607,7 @@ func main() {
 		"agreement + reply geometry, and the geometry (as decoded by the real slayers) of packets emitted for byte-mutated " +
 		"inputs. non-trivial = a packet was emitted (forwarded, delivered, SCMP reply)"
 	x := &ctx{run: run, rng: vgen.NewRand(run.Seed), now: time.Now().Unix(), geoSeen: map[string]int{}}
-	x.coqMax = run.Count(150, 3000)
+	x.coqMax = run.Count(100, 2000)
 
 	for i := 0; i < 4; i++ {
 		c := rtgen.GenConfig(x.rng.Fork(uint64(9000 + i)))
@@ -635,7 +635,7 @@ func main() {
 	srcs := []*net.UDPAddr{srcV4, srcV6, srcMapped}
 
 	// ---- stream 1a: valid packets
-	nValid := run.Count(260, 20000)
+	nValid := run.Count(170, 6000)
 	for i := 0; i < nValid; i++ {
 		r := x.rng.Fork(uint64(i))
 		cf := x.cfgs[i%len(x.cfgs)]
@@ -648,7 +648,7 @@ func main() {
 		x.emitModel("valid", cf, sc, "l4:"+o.L4)
 	}
 	// ---- stream 1b: field-level mutations, and SCMP errors delivered locally (getDstPortSCMP)
-	nField := run.Count(330, 30000)
+	nField := run.Count(230, 9000)
 	for i := 0; i < nField; i++ {
 		r := x.rng.Fork(uint64(100000 + i))
 		cf := x.cfgs[i%len(x.cfgs)]
@@ -696,7 +696,7 @@ func main() {
 		x.emitBytes("one-hop", what, cf, raw, ing, srcV4)
 	}
 	// ---- stream 2: byte-level mutations
-	nByte := run.Count(1400, 300000)
+	nByte := run.Count(1400, 400000)
 	for i := 0; i < nByte; i++ {
 		r := x.rng.Fork(uint64(300000 + i))
 		cf := x.cfgs[i%len(x.cfgs)]
